@@ -518,7 +518,7 @@ func c11ResumeOneRun(c *c11Case, l *c11Layout, r *c11AnyRunner, interrupts bool)
 				opts = append(opts, compose.WithCheckPointID("cp"))
 			}
 			out, err = r.invoke(ctx, opts...)
-			for tries := 0; err != nil && tries < 8; tries++ {
+			for tries := 0; err != nil && tries < 14; tries++ {
 				info, ok := compose.ExtractInterruptInfo(err)
 				if !ok {
 					break
